@@ -168,7 +168,7 @@ func ecoTable(gen map[string]json.RawMessage, table string) interface{} {
 func stage(gen map[string]json.RawMessage, at time.Time, run func(a *chain.App)) map[string]json.RawMessage {
 	a := chain.New(chain.Options{Genesis: gen, GenesisTime: at})
 	if r := a.InitChain(); !r.OK {
-		panic("gen: stage InitChain failed: " + r.PanicValue + r.Err)
+		panic("gen: staging step failed: step=InitChain of a staged genesis: " + r.PanicValue + r.Err)
 	}
 	a.BeginBlock(0, at.Add(time.Second))
 	run(a)
@@ -180,10 +180,17 @@ func stage(gen map[string]json.RawMessage, at time.Time, run func(a *chain.App))
 	return out
 }
 
-func mustOK(res chain.StepResult, what string) {
+// stageDo delivers a message that must succeed while a staged genesis is being prepared. A rejection
+// panics (cmd/ledger recovers per history and reports it as a violation); the panic message carries
+// the family, the step and the message JSON so that the failure can be replayed by hand.
+func stageDo(a *chain.App, family, step string, m sdk.Msg) chain.StepResult {
+	res := a.Deliver(m)
 	if !res.OK {
-		panic("gen: staging step failed: " + what + ": " + res.Log + res.Err)
+		url, js, _ := chain.MsgToJSON(m)
+		panic(fmt.Sprintf("gen: staging step failed: family=%s step=%q height=%d block_time=%s verdict=%s code=%s/%d log=%q err=%q msg=%s %s",
+			family, step, a.Height(), a.BlockTime().Format(time.RFC3339Nano), res.Verdict(), res.Codespace, res.Code, clip(res.Log, 400), res.Err, url, string(js)))
 	}
+	return res
 }
 
 func longString(prefix string, n int) string {
